@@ -29,3 +29,10 @@ Definition ohs_perf (nb ms minp maxp : Z) : encdec pevent Z :=
 Definition lb_perf (nb ms minp maxp : Z) (ds : list Z) (bits : Z) : encdec pevent Z :=
   let rs := perf_ranges nb ms minp maxp in
   lb pevent pe_eqb (oh_num_classes rs) (pe_enc rs) (pe_dec rs) (EV_TIME_SHIFT, ms) perf_steps ds bits.
+
+(* default_event_label of the one-hot wrappers: encode_event(default_event) *)
+Definition ohs_mel_default_label (mn mx : Z) : option Z := mel_encode mn mx MELODY_NO_EVENT.
+Definition lb_mel_default_label (mn mx : Z) : option Z :=
+  lb_default_label Z (mel_encode mn mx) MELODY_NO_EVENT.
+Definition perf_default_label (nb ms minp maxp : Z) : option Z :=
+  pe_enc (perf_ranges nb ms minp maxp) (EV_TIME_SHIFT, ms).
